@@ -23,10 +23,14 @@ META = {
                   "barycentric weights >= 0 summing to 1 on the chosen face and carry that face's unit normal; the vector "
                   "handed to numpy's choice is >= 0, sums to 1 and is proportional to length/area; de Casteljau equals the "
                   "Bernstein polynomial (binomial coefficients proved to be n!/(k!(n-k)!)), interpolates end/corner points, "
-                  "is a convex combination on [0,1], rejects parameters outside [0,1]; export indices are in range and "
+                  "is a convex combination on [0,1], rejects parameters outside [0,1]; only a polyline with at most one edge bypasses "
+                  "choice(NE, size=n, p=lengths/sum) (theorem on the generated NE test; sample_surface has no bypass); export indices are in range and "
                   "grid-consistent for all (n1,n2). NOT proved (statistical): that the observed share of samples per "
                   "edge/face follows length/area - numpy's choice is trusted, a chi-square test in the thorough tier is "
-                  "support only. Defects #36/#37/#38 were repaired by fix: commits; the theorems are about the repaired code.",
+                  "support only; TESTED per run, not proved: the recorded call protocol (one choice call with p = lengths/areas normalised "
+                  "whenever there are >= 2 edges/faces, every sample on the edge/face drawn for it), 200-draw runs in which every "
+                  "edge/face of share >= 8 % must be hit, value semantics of evaluate/exports (results edited in place by the "
+                  "caller must not change later evaluations), stale or colliding mesh attributes. Defects #36/#37/#38 were repaired by fix: commits; the theorems are about the repaired code.",
     "level_note": "Grid resolution: the model's grid_res is the EXACT nearest integer d-th root (iroot_round, proved to "
                   "satisfy (r-1/2)^d <= n < (r+1/2)^d); the code computes round(np.power(n_pts, 1/box.dim)) in binary64 with "
                   "round-half-even. Their agreement is not a theorem: it is checked on every run for ALL n_pts <= 100000 (quick; "
@@ -144,6 +148,31 @@ def add_scenario(rng, c, ok):
                 break
 
 
+def gen_many_polyline(rng):
+    """few edges of unequal lengths, many draws: every edge holding >= 8 % of the length must be hit (miss probability 0.92^200 < 1e-7)"""
+    ne = rng.choice([2, 2, 2, 3, 4])
+    V = [[0.0, 0.0, 0.0]]
+    for i in range(ne):
+        step = rng.choice([0.5, 1.0, 2.0, 4.5])
+        axis = rng.randrange(3)
+        q = list(V[-1])
+        q[axis] += step
+        q[(axis + 1) % 3] += rng.choice([0.0, 0.25, 1.0])
+        V.append(q)
+    E = [[i, i + 1] for i in range(ne)]
+    return {"kind": "polyline", "V": V, "E": E, "n": 200, "pc": False, "seed": rng.randrange(1 << 30), "many": True}
+
+
+def gen_many_surface(rng):
+    c = gen_surface(rng)
+    while not (2 <= len(c["F"]) <= 4):
+        c = gen_surface(rng)
+    for key in ("pre", "V2", "junk"):
+        c.pop(key, None)
+    c.update(n=200, pc=False, normals=False, many=True)
+    return c
+
+
 def tri_degenerate(A, B, C):
     u = [b - a for a, b in zip(A, B)]
     v = [c - a for a, c in zip(A, C)]
@@ -191,6 +220,22 @@ def dyadic_param(rng, den):
     return rng.randint(0, den) / den
 
 
+def add_alias(rng, c, patch):
+    """~40 %: the caller modifies, in place, points it got from evaluate / an export before the observed call"""
+    if rng.random() < 0.6:
+        return c
+    pre = []
+    for _ in range(rng.choice([1, 1, 2, 3])):
+        r = rng.random()
+        if r < 0.75:
+            t = lambda: rng.choice([0.0, 1.0, 0, 1, 0.5, rng.randint(0, 8) / 8])
+            pre.append({"at": [t(), t()] if patch else t()})
+        else:
+            pre.append({"export": [rng.choice([1, 2, 3]), rng.choice([1, 2, 3])] if patch else rng.choice([1, 2, 3])})
+    c["alias"] = {"pre": pre, "op": rng.choice([["add", 1.0], ["add", -0.5], ["mul", 2.0], ["mul", 0.0]])}
+    return c
+
+
 def gen_curve(rng, exact):
     deg = rng.choice([0, 1, 2, 2, 3, 3, 4, 5])
     dim = rng.choice([2, 3, 3, 1, 4]) if exact else rng.choice([2, 3])
@@ -199,7 +244,7 @@ def gen_curve(rng, exact):
         P = []
     t = dyadic_param(rng, 16) if exact else rng.choice([rng.random(), rng.random(), 1 / 3, 0.1, 1 - 2 ** -53, 2 ** -40,
                                                         1 + 2 ** -52, -2 ** -60])
-    return {"kind": "curve", "P": P, "t": t, "exact": exact}
+    return add_alias(rng, {"kind": "curve", "P": P, "t": t, "exact": exact}, False)
 
 
 def gen_net(rng, maxdeg=3):
@@ -213,7 +258,7 @@ def gen_patch(rng, exact):
         u, v = dyadic_param(rng, 8), dyadic_param(rng, 8)
     else:
         u, v = rng.random(), rng.choice([rng.random(), 1 / 3, 1.0, 0.0])
-    return {"kind": "patch", "rows": rows, "u": u, "v": v, "exact": exact}
+    return add_alias(rng, {"kind": "patch", "rows": rows, "u": u, "v": v, "exact": exact}, True)
 
 
 def gen_polylinex(rng, small=None):
@@ -224,19 +269,20 @@ def gen_polylinex(rng, small=None):
     if small is not None:
         return {"kind": "polylinex", "P": P, "n_pts": small, "custom": None}
     if r < 0.45:
-        return {"kind": "polylinex", "P": P, "n_pts": rng.choice([1, 2, 3, 4, 5, 7, 10]), "custom": None}
+        return add_alias(rng, {"kind": "polylinex", "P": P, "n_pts": rng.choice([1, 2, 3, 4, 5, 7, 10]), "custom": None}, False)
     m = rng.choice([1, 2, 3, 4, 6])
     custom = sorted(rng.randint(0, 16) / 16 for _ in range(m))
     if rng.random() < 0.08:
         custom[rng.randrange(m)] = rng.choice([1.25, -0.5])
     n_pts = None if rng.random() < 0.5 else rng.choice([0, 1, 2, 3, 5, 9])
-    return {"kind": "polylinex", "P": P, "n_pts": n_pts, "custom": custom}
+    return add_alias(rng, {"kind": "polylinex", "P": P, "n_pts": n_pts, "custom": custom}, False)
 
 
 def gen_surfacex(rng, n1=None, n2=None):
     rows = gen_net(rng, 2)
     if n1 is None:
         n1, n2 = rng.choice([1, 2, 3, 4, 5]), rng.choice([1, 2, 3, 4, 5, 6])
+        return add_alias(rng, {"kind": "surfacex", "rows": rows, "n1": n1, "n2": n2}, True)
     return {"kind": "surfacex", "rows": rows, "n1": n1, "n2": n2}
 
 
@@ -488,10 +534,31 @@ def oracle(c, obs):
         for p in obs["out"]:
             if min(seg_dist(p, V[a], V[b]) for a, b in E) > 1e-9 * scale:
                 return "polyline sample %s is on no edge" % p
-        for ch in draws(obs, "choice"):
-            m = prob_check(ch["p"], [math.dist(V[a], V[b]) for a, b in E], "length")
+        lens = [math.dist(V[a], V[b]) for a, b in E]
+        ch = draws(obs, "choice")
+        for x in ch:
+            m = prob_check(x["p"], lens, "length") if x["p"] is not None else "choice called without p"
             if m:
                 return m
+        # deterministic core of "shares follow length": with two or more edges the edge of every sample is drawn by
+        # ONE call choice(NE, size=n, p=lengths/sum); only a single edge may bypass it
+        used = [0] * c["n"]
+        if len(E) >= 2:
+            if len(ch) != 1 or ch[0]["a"] != len(E) or ch[0]["size"] != c["n"] or ch[0]["p"] is None:
+                return ("polyline with %d edges of lengths %s: edge indices were not drawn by one call choice(%d, size=%d, "
+                        "p=lengths/sum); recorded choice calls: %s" % (len(E), lens, len(E), c["n"],
+                                                                       [(x["a"], x["size"]) for x in ch]))
+            used = ch[0]["out"]
+        for p, e in zip(obs["out"], used):
+            if not (0 <= e < len(E)) or seg_dist(p, V[E[e][0]], V[E[e][1]]) > 1e-9 * scale:
+                return "polyline sample %s is not on edge %s, the one drawn for it" % (p, e)
+        if c.get("many"):
+            tot = sum(lens)
+            for k2, (a, b) in enumerate(E):
+                if lens[k2] >= 0.08 * tot and not any(seg_dist(p, V[a], V[b]) <= 1e-9 * scale for p in obs["out"]):
+                    return ("edge %d holds %.0f%% of the length but received none of %d samples (shares per edge: %s)"
+                            % (k2, 100 * lens[k2] / tot, c["n"],
+                               [sum(1 for p in obs["out"] if seg_dist(p, V[x], V[y]) <= 1e-9 * scale) for x, y in E]))
         return None
     if k == "surface":
         V, Fc = obs["V"], obs["F"]
@@ -515,14 +582,32 @@ def oracle(c, obs):
                         ok = True
                 if not ok:
                     return "normal %s of sample %s is not the unit normal of a face containing it" % (nn, p)
-        for ch in draws(obs, "choice"):
-            ar = []
-            for f in Fc:
-                n = cross([b - a for a, b in zip(V[f[0]], V[f[1]])], [b - a for a, b in zip(V[f[0]], V[f[2]])])
-                ar.append(math.sqrt(sum(x * x for x in n)) / 2)
-            m = prob_check(ch["p"], ar, "area")
+        ar = []
+        for f in Fc:
+            n = cross([b - a for a, b in zip(V[f[0]], V[f[1]])], [b - a for a, b in zip(V[f[0]], V[f[2]])])
+            ar.append(math.sqrt(sum(x * x for x in n)) / 2)
+        ch = draws(obs, "choice")
+        for x in ch:
+            m = prob_check(x["p"], ar, "area") if x["p"] is not None else "choice called without p"
             if m:
                 return m
+        used = [0] * c["n"]
+        if len(Fc) >= 2:
+            if len(ch) != 1 or ch[0]["a"] != len(Fc) or ch[0]["size"] != c["n"] or ch[0]["p"] is None:
+                return ("surface with %d faces of areas %s: face indices were not drawn by one call choice(%d, size=%d, "
+                        "p=areas/sum); recorded choice calls: %s" % (len(Fc), ar, len(Fc), c["n"],
+                                                                     [(x["a"], x["size"]) for x in ch]))
+            used = ch[0]["out"]
+        elif ch:
+            used = ch[0]["out"]
+        for p, f in zip(obs["out"], used):
+            if not (0 <= f < len(Fc)) or not in_triangle(p, V[Fc[f][0]], V[Fc[f][1]], V[Fc[f][2]]):
+                return "surface sample %s is not in face %s, the one drawn for it" % (p, f)
+        if c.get("many"):
+            tot = sum(ar)
+            for k2, f in enumerate(Fc):
+                if ar[k2] >= 0.08 * tot and not any(in_triangle(p, V[f[0]], V[f[1]], V[f[2]]) for p in obs["out"]):
+                    return ("face %d holds %.0f%% of the area but received none of %d samples" % (k2, 100 * ar[k2] / tot, c["n"]))
         return None
     if k in ("curve", "patch"):
         params = [c["t"]] if k == "curve" else [c["u"], c["v"]]
@@ -636,6 +721,16 @@ def shrink(case, fails):
                         if fails(t):
                             cur, changed = t, True
                             break
+        if cur.get("alias"):
+            t = {q: v for q, v in cur.items() if q != "alias"}
+            if fails(t):
+                cur, changed = t, True
+            elif len(cur["alias"]["pre"]) > 1:
+                for i in range(len(cur["alias"]["pre"])):
+                    t = dict(cur, alias=dict(cur["alias"], pre=cur["alias"]["pre"][:i] + cur["alias"]["pre"][i + 1:]))
+                    if fails(t):
+                        cur, changed = t, True
+                        break
         for key in ("V2", "pre"):
             if key in cur:
                 t = {q: v for q, v in cur.items() if q != key and not (key == "pre" and q in ("junk", "V2"))}
@@ -669,6 +764,10 @@ def klass(c, msg):
         return "as_surface/" + ("n1=n2" if c["n1"] == c["n2"] else "n1!=n2")
     if k == "polylinex":
         return "as_polyline/" + ("custom" if c["custom"] is not None else "linspace")
+    if c.get("alias"):
+        return k + "/after-in-place-edit-of-returned-points"
+    if k in ("polyline", "surface") and c.get("many"):
+        return k + "/shares"
     if k in ("polyline", "surface") and c.get("pre"):
         return "%s/attributes-%s%s" % (k, c["pre"], "-moved" if c.get("V2") else "")
     return k
@@ -751,6 +850,8 @@ def run(ctx):
             (lambda: gen_polylinex(rng), 70), (lambda: gen_surfacex(rng), 60)]
     for g, cnt in plan:
         cases += [g() for _ in range(cnt * mult)]
+    for _ in range(4 * min(mult, 4)):
+        cases += [gen_many_polyline(rng), gen_many_surface(rng)]
     # every small pair of resolutions, equal or not (exhaustive sweep: support, the theorem is unbounded)
     lim = 5 if quick else 9
     for n1 in range(0, lim + 1):
@@ -778,6 +879,14 @@ def run(ctx):
             ctx.count("%s radius %s 1" % (k, "<" if c["radius"] < 1 else (">" if c["radius"] > 1 else "=")))
         if k == "surfacex":
             ctx.count("as_surface n1%sn2" % ("=" if c["n1"] == c["n2"] else "!="))
+        if c.get("alias"):
+            ctx.count("%s after in-place edit of returned points" % k)
+        if c.get("many"):
+            ctx.count("%s with 200 draws (every edge/face of share >= 8%% must be hit)" % k)
+        if k == "polyline" and "E" in o:
+            ctx.count("polyline NE=%s" % (len(o["E"]) if len(o["E"]) < 3 else ">=3"))
+        if k == "surface" and "F" in o:
+            ctx.count("surface NF=%s" % (len(o["F"]) if len(o["F"]) < 3 else ">=3"))
         if k in ("polyline", "surface"):
             ctx.count("%s scenario: %s" % (k, "fresh mesh" if not c.get("pre") else
                                            "attributes %s, then vertices %s" % ({"compute": "computed persistently", "junk": "pre-existing with arbitrary values"}[c["pre"]],
